@@ -77,6 +77,13 @@ static bool gen_c10(uint64_t seed, const std::string &tier, uint64_t i, Plan &p)
     if (r.chance(0.4)) p.ops.push(Json::obj().set("op", "yield").set("n", (long long)r.range(1, 200)));
   }
   if (hup && hup_at == nmsg) do_hup();
+  // a second reread later on (new content again), sometimes failing half-way after the first one succeeded, and more mail after it
+  if (hup && r.chance(0.4)) {
+    if (r.chance(0.6)) { Fault f; f.actor = "qmail-send"; f.call = r.pick(std::vector<CallId>{C_OPEN, C_READ}); f.path = r.chance(0.6) ? "/control/virtualdomains" : "/control/locals"; f.nth = 3; f.kind = "error"; f.err = r.pick(std::vector<int>{EIO, EACCES, ENOMEM, ENFILE}); p.faults.push_back(f); }
+    p.ops.push(Json::obj().set("op", "yield").set("n", (long long)r.range(100, 400)));
+    do_hup();
+    for (int m = 0; m < 2; m++) { Json inj = Json::obj(); inj.set("op", "inject").set("id", "n" + std::to_string(m + 1)).set("body_len", 10).set("body_seed", m).set("sender", "s@x.example"); Json rc = Json::arr(); int nr = (int)r.range(2, 6); for (int q = 0; q < nr; q++) rc.push(rand_rcpt()); inj.set("rcpts", rc); p.ops.push(inj); p.ops.push(Json::obj().set("op", "yield").set("n", (long long)r.range(1, 200))); }
+  }
   int dist = (int)(i % 6);
   if (dist == 4) { Fault f; f.actor = "qmail-send"; f.call = C_ANY; f.nth = (int)r.range(30, 400); f.kind = r.chance(0.5) ? "kill" : "crash"; f.image = r.pick(std::vector<std::string>{"worst", "best", "random"}); p.faults.push_back(f); }
   if (dist == 5 && hup) { Fault f; f.actor = "qmail-send"; f.call = C_READ; f.path = r.chance(0.5) ? "control/locals" : "control/virtualdomains"; f.nth = 2; f.kind = "error"; f.err = EIO; p.faults.push_back(f); }
